@@ -233,67 +233,7 @@ func C04(p *core.Program, r *core.Report) {
 	checkPicturePruning(p, r, "V2")
 
 	// ---- V3
-	if iv := mustInl(p, r, "V3", domutilPkg+".IsProbablyVisible"); iv != nil {
-		paths, atoms, err := core.EnumerateDecisions(p, iv, core.DecisionOpts{Outcome: func(in ssa.Instruction, c *core.Canon) (string, bool) {
-			if ret, ok := in.(*ssa.Return); ok {
-				return "return " + c.Of(ret.Results[0]), true
-			}
-			return "", false
-		}})
-		if err != nil {
-			r.Undecided("V3", "IsProbablyVisible", err.Error())
-		}
-		spec := core.DecisionSpec{
-			Atoms: map[string]string{
-				"display.none": q(`domutil.GetDisplayStyle($0) == "none"`),
-				"hidden.attr":  q(`dom.HasAttribute($0,"hidden")`),
-				"visibility":   q(`regexp.Regexp.MatchString(` + rxVisibility + `,dom.GetAttribute($0,"style"))`),
-				"aria.absent":  q(`dom.GetAttribute($0,"aria-hidden") == ""`),
-				"aria.true":    q(`dom.GetAttribute($0,"aria-hidden") == "true"`),
-			},
-			Rules: []core.SpecRule{
-				{Name: "display:none (inline style or tag default)", Guard: core.A("display.none"), Outcome: "return false"},
-				{Name: "hidden attribute", Guard: core.A("hidden.attr"), Outcome: "return false"},
-				{Name: "visibility:hidden/collapse", Guard: core.A("visibility"), Outcome: "return false"},
-				{Name: "no aria-hidden", Guard: core.A("aria.absent"), Outcome: "return true"},
-				{Name: "aria-hidden other than true", Guard: core.Not(core.A("aria.true")), Outcome: "return true"},
-				{Name: "aria-hidden=true: only the Wikimedia math fallback image stays", Guard: core.True(), Outcome: `return strings.Contains(dom.GetAttribute($0,"class"),"fallback-image")`},
-			},
-			Excl: [][2]string{{"aria.absent", "aria.true"}},
-		}
-		core.CheckDecisionList(r, "V3", "IsProbablyVisible", paths, atoms, spec)
-	}
-	if gd := mustInl(p, r, "V3", domutilPkg+".GetDisplayStyle"); gd != nil {
-		// the inline style decides first
-		paths, _, _ := core.EnumerateDecisions(p, gd, core.DecisionOpts{MaxPaths: 100000, Outcome: func(in ssa.Instruction, c *core.Canon) (string, bool) {
-			if ret, ok := in.(*ssa.Return); ok {
-				return "return " + c.Of(ret.Results[0]), true
-			}
-			return "", false
-		}})
-		ok := false
-		for _, pa := range paths {
-			if len(pa.Lits) == 1 && strings.HasPrefix(pa.Lits[0].Atom, `len(regexp.Regexp.FindStringSubmatch(`+rxDisplay+`,dom.GetAttribute($0,"style"))) <= 1`) && !pa.Lits[0].Val &&
-				pa.Outcome == `return regexp.Regexp.FindStringSubmatch(`+rxDisplay+`,dom.GetAttribute($0,"style"))[1]` {
-				ok = true
-			}
-		}
-		r.Add("V3", "an inline display value overrides the tag default", p.Pos(gd.Pos()), ok, "first decision of GetDisplayStyle: rxDisplay on the style attribute")
-		for _, t := range []string{"script", "style"} {
-			n, okT := 0, true
-			for _, pa := range consistentWith(paths, "dom.TagName($0)", t) {
-				if len(pa.Lits) > 0 && strings.HasPrefix(pa.Lits[0].Atom, "len(regexp.Regexp.FindStringSubmatch("+rxDisplay+",") && !pa.Lits[0].Val {
-					continue // inline display given
-				}
-				n++
-				if pa.Outcome != `return "none"` {
-					okT = false
-				}
-			}
-			r.Add("V3", "default display of <"+t+"> is none", p.Pos(gd.Pos()), okT && n > 0, fmt.Sprintf("%d decision paths for the tag without inline display", n))
-		}
-	}
-	// (the two patterns are pinned by the atoms above: private regexps are named by their pattern)
+	checkVisibilityRules(p, r, "V3")
 
 	// ---- V4
 	if tbl := converterSwitch(p, r, "V4"); tbl != nil {
@@ -391,4 +331,72 @@ func C04(p *core.Program, r *core.Report) {
 		r.Add("V5", "synthesised figure captions are rendered with InnerText from a re-parsed fragment", p.Pos(cf.Pos()),
 			v == `strings.TrimSpace(domutil.InnerText(dom.CreateElement("div")))` && strings.HasPrefix(inner, "domutil.InnerText("), "caption = "+v+"; fragment = "+inner)
 	}
+}
+
+// checkVisibilityRules (V3 of C04, shared with C02-O7 and C07-N4): IsProbablyVisible decides by the
+// documented list, an inline display value overrides the tag default, script/style default to
+// none. The two regular expressions are pinned by the atoms (private regexps are named by pattern).
+func checkVisibilityRules(p *core.Program, r *core.Report, rule string) {
+	if iv := mustInl(p, r, rule, domutilPkg+".IsProbablyVisible"); iv != nil {
+		paths, atoms, err := core.EnumerateDecisions(p, iv, core.DecisionOpts{Outcome: func(in ssa.Instruction, c *core.Canon) (string, bool) {
+			if ret, ok := in.(*ssa.Return); ok {
+				return "return " + c.Of(ret.Results[0]), true
+			}
+			return "", false
+		}})
+		if err != nil {
+			r.Undecided(rule, "IsProbablyVisible", err.Error())
+		}
+		spec := core.DecisionSpec{
+			Atoms: map[string]string{
+				"display.none": q(`domutil.GetDisplayStyle($0) == "none"`),
+				"hidden.attr":  q(`dom.HasAttribute($0,"hidden")`),
+				"visibility":   q(`regexp.Regexp.MatchString(` + rxVisibility + `,dom.GetAttribute($0,"style"))`),
+				"aria.absent":  q(`dom.GetAttribute($0,"aria-hidden") == ""`),
+				"aria.true":    q(`dom.GetAttribute($0,"aria-hidden") == "true"`),
+			},
+			Rules: []core.SpecRule{
+				{Name: "display:none (inline style or tag default)", Guard: core.A("display.none"), Outcome: "return false"},
+				{Name: "hidden attribute", Guard: core.A("hidden.attr"), Outcome: "return false"},
+				{Name: "visibility:hidden/collapse", Guard: core.A("visibility"), Outcome: "return false"},
+				{Name: "no aria-hidden", Guard: core.A("aria.absent"), Outcome: "return true"},
+				{Name: "aria-hidden other than true", Guard: core.Not(core.A("aria.true")), Outcome: "return true"},
+				{Name: "aria-hidden=true: only the Wikimedia math fallback image stays", Guard: core.True(), Outcome: `return strings.Contains(dom.GetAttribute($0,"class"),"fallback-image")`},
+			},
+			Excl: [][2]string{{"aria.absent", "aria.true"}},
+		}
+		core.CheckDecisionList(r, rule, "IsProbablyVisible", paths, atoms, spec)
+	}
+	if gd := mustInl(p, r, rule, domutilPkg+".GetDisplayStyle"); gd != nil {
+		// the inline style decides first
+		paths, _, _ := core.EnumerateDecisions(p, gd, core.DecisionOpts{MaxPaths: 100000, Outcome: func(in ssa.Instruction, c *core.Canon) (string, bool) {
+			if ret, ok := in.(*ssa.Return); ok {
+				return "return " + c.Of(ret.Results[0]), true
+			}
+			return "", false
+		}})
+		ok := false
+		for _, pa := range paths {
+			if len(pa.Lits) == 1 && strings.HasPrefix(pa.Lits[0].Atom, `len(regexp.Regexp.FindStringSubmatch(`+rxDisplay+`,dom.GetAttribute($0,"style"))) <= 1`) && !pa.Lits[0].Val &&
+				pa.Outcome == `return regexp.Regexp.FindStringSubmatch(`+rxDisplay+`,dom.GetAttribute($0,"style"))[1]` {
+				ok = true
+			}
+		}
+		r.Add(rule, "an inline display value overrides the tag default", p.Pos(gd.Pos()), ok, "first decision of GetDisplayStyle: rxDisplay on the style attribute")
+		for _, t := range []string{"script", "style"} {
+			n, okT := 0, true
+			for _, pa := range consistentWith(paths, "dom.TagName($0)", t) {
+				if len(pa.Lits) > 0 && strings.HasPrefix(pa.Lits[0].Atom, "len(regexp.Regexp.FindStringSubmatch("+rxDisplay+",") && !pa.Lits[0].Val {
+					continue // inline display given
+				}
+				n++
+				if pa.Outcome != `return "none"` {
+					okT = false
+				}
+			}
+			r.Add(rule, "default display of <"+t+"> is none", p.Pos(gd.Pos()), okT && n > 0, fmt.Sprintf("%d decision paths for the tag without inline display", n))
+		}
+	}
+	// (the two patterns are pinned by the atoms above: private regexps are named by their pattern)
+
 }
